@@ -780,11 +780,15 @@ func (f *STFS) Rename(oldname, newname string) error {
 			return os.ErrExist
 		}
 
+		// Renaming an entry onto itself is a no-op
+		if oldname == newname {
+			return nil
+		}
+
+		// Replace the target, then move the source onto it
 		if err := f.removeWithoutLocking(newname); err != nil {
 			return err
 		}
-
-		return err
 	}
 
 	return f.writeOps.Move(oldname, newname)
